@@ -19,7 +19,9 @@ from vcheck import gz, gzlist, gnlist, gnmat, gq
 VALS = (-3, -2, -1, 1, 2, 3, 4, 5)
 SCALAR_OPS = ("innerprod", "norm")
 EXT_OPS = SCALAR_OPS + ("permute", "reshape", "squeeze", "ttv", "ttm", "contract", "collapse", "scale", "sptenmat",
-                        "setitem", "mask", "extract", "getitem")
+                        "setitem", "mask", "extract", "getitem", "stm_hist", "gen", "chain")
+LAYOUT_OPS = tuple(o for o in EXT_OPS if o != "gen")      # the identity stored order is re-run with the operand's arrays in other memory layouts
+MUST_RETURN = ("stm_hist", "gen")     # requests that are admissible by construction: pyttb has to return something
 BIG_CELLS = 200          # above this many cells the canonical form is compared entry-wise (all_same_sparse_e)
 
 
@@ -90,6 +92,43 @@ def rand_region(rng, shape, allow_all_int=True):
     if not allow_all_int and all(isinstance(k, int) for k in key):
         key[rng.randrange(len(key))] = {"s": [None, None]}
     return key
+
+
+def rand_region_lists(rng, shape, grow=False):
+    """region key with explicit slices and index lists ({"l": [...]}, possibly repeating an index); returns
+    (key, extents of the non-integer components = shape of a fitting right-hand side, shape after the assignment)"""
+    key, lens, after = [], [], []
+    g = rng.randrange(len(shape)) if grow else None
+    for n, d in enumerate(shape):
+        top = d + (rng.randint(1, 2) if n == g else 0)          # indices may reach top - 1
+        r = rng.random()
+        if r < 0.25:
+            k = rng.randrange(top) if n != g else top - 1
+            key.append(k)
+            after.append(max(d, k + 1))
+        elif r < 0.5:
+            lo = rng.randrange(top)
+            hi = rng.randint(lo + 1, top) if n != g else top
+            key.append({"s": [lo, hi]})
+            lens.append(hi - lo)
+            after.append(max(d, hi))
+        else:
+            m = rng.randint(1, 3)
+            l = [rng.randrange(top) for _ in range(m)]
+            if r < 0.75:
+                l = list(dict.fromkeys(l))                       # distinct
+            elif len(l) >= 2:
+                l[rng.randrange(1, len(l))] = l[0]               # an index repeated
+            if n == g:
+                l[-1] = top - 1
+            key.append({"l": l})
+            lens.append(len(l))
+            after.append(max(d, max(l) + 1))
+    if not lens:
+        n = rng.randrange(len(shape))
+        key[n] = {"l": [key[n], key[n]]}
+        lens.append(2)
+    return key, lens, after
 
 
 def ordered_partitions(rng, N):
@@ -169,6 +208,13 @@ def gen_round(rng, tier, mk):
             fs = rng.sample(fs, 10 if big else 3)
         for new in fs:
             add("reshape", dict(sp_args(rng, shape), new=new))
+    # ---- reshape of a subset of the modes (old_modes in any order; the kept modes come first, then the new shape)
+    for shape in [s for s in SHAPES if len(s) >= 2]:
+        for _ in range(2 * rep):
+            old = rng.sample(range(len(shape)), rng.randint(1, len(shape)))
+            if rng.random() < 0.5:
+                old.sort()
+            add("reshape", dict(sp_args(rng, shape), new=rng.choice(factorizations(math.prod(shape[m] for m in old))), old=old))
     # ---- squeeze: no singleton, some, all singleton modes
     for shape in ([1], [1, 1], [1, 3], [3, 1], [1, 1, 2], [2, 1, 3, 1], [1, 2, 1], [2, 3], [3], [1, 1, 1], [2, 1, 2]):
         for _ in range(2 * rep):
@@ -250,6 +296,21 @@ def gen_round(rng, tier, mk):
                     qs = [list(q) for q in dict.fromkeys(map(tuple, qs))]          # distinct targets: one value per target
                     steps.append({"t": "subs", "subs": qs, "c": [rng.choice((0, 0, 6, -5)) for _ in qs]})
             add("setitem", dict(a, steps=steps))
+    # ---- __setitem__ of a region whose key holds index LISTS (distinct or REPEATING an index: finding C06-DUP1), on empty and
+    #      non-empty receivers, with a scalar / zero / sparse right-hand side, optionally growing the shape
+    for shape in [s for s in SHAPES if math.prod(s) > 1]:
+        for _ in range(3 * rep):
+            a = sp_args(rng, shape, 0 if rng.random() < 0.3 else None)
+            steps = []
+            cur = list(shape)
+            for _ in range(rng.randint(1, 2)):
+                key, lens, cur = rand_region_lists(rng, cur, grow=rng.random() < 0.2)
+                if rng.random() < 0.6:
+                    steps.append({"t": "region", "key": key, "c": rng.choice((0, 7, -4, 7))})
+                else:
+                    v = sp_args(rng, lens)
+                    steps.append({"t": "region_sp", "key": key, "vshape": lens, "vsubs": v["subs"], "vvals": v["vals"]})
+            add("setitem", dict(a, steps=steps))
     # ---- mask (the mask is a second sparse operand, its stored order is permuted too), extract, __getitem__ of a region
     for shape in SHAPES:
         for _ in range(2 * rep):
@@ -262,14 +323,292 @@ def gen_round(rng, tier, mk):
             add("extract", dict(a, q=[list(q) for q in qs]))
             add("getitem", dict(sp_args(rng, shape), key=rand_region(rng, shape)))
             add("getitem", dict(sp_args(rng, shape), q=[list(q) for q in qs]))
+    # ---- chains (third wave): the RESULT of one public operation (possibly empty by exact cancellation, S - S, S * 0, all entries
+    #      assigned zero) is fed into a second one; the second result is compared with the same request on a freshly built copy
+    for shape in [s for s in SHAPES if math.prod(s) > 1]:
+        for _ in range(3 * rep):
+            first = rng.choice(("sub", "sub", "add", "mul", "and", "or", "xor", "self_sub", "times0", "neg", "setzero"))
+            a = sp_args(rng, shape)
+            if first in ("sub", "add", "mul", "and", "or", "xor"):
+                b = sp_args(rng, shape)
+                if first in ("sub", "add") and a["subs"] and rng.random() < 0.5:       # exact cancellation on a part / on everything
+                    k = rng.choice((len(a["subs"]), rng.randint(1, len(a["subs"]))))
+                    sgn = 1 if first == "sub" else -1
+                    b = {"subs": [list(x) for x in a["subs"][:k]], "vals": [sgn * v for v in a["vals"][:k]]}
+                a = dict(a, rk="sparse", bsubs=b["subs"], bvals=b["vals"])
+            cases.append(mark(mk("chain", dict(a, first=first, second=rand_second(rng, shape))), rng))
+    # ---- sptenmat.__setitem__ histories (third wave): raw well-formedness bits of the sptenmat after EVERY step
+    for shape in [s for s in SHAPES if math.prod(s) > 1]:
+        for _ in range(3 * rep):
+            cases.append(mark(mk("stm_hist", gen_stm_hist(rng, shape)), rng))
+    # ---- generators (third wave): sptendiag, sptenrand, from_function, sptenmat constructor / from_array
+    for g in gen_generators(rng, tier):
+        cases.append(mark(mk("gen", g)))
     return cases
+
+
+def rand_second(rng, shape):
+    """an admissible single-operand request on a sparse tensor of the given shape"""
+    N = len(shape)
+    n = math.prod(shape)
+    ops = ["permute", "reshape", "squeeze", "ttv", "collapse", "sptenmat", "norm", "innerprod", "getitem", "extract", "scale", "setitem", "ttm"]
+    if any(shape[i] == shape[j] for i in range(N) for j in range(N) if i != j):
+        ops.append("contract")
+    op = rng.choice(ops)
+    d = {"op": op, "shape": list(shape)}
+    if op == "permute":
+        p = list(range(N))
+        rng.shuffle(p)
+        d["p"] = p
+    elif op == "reshape":
+        d["new"] = rng.choice(factorizations(n))
+    elif op == "ttv":
+        dims = rng.sample(range(N), rng.randint(1, N))
+        d.update(dims=dims, vecs=[rand_vec(rng, shape[m], 0.2) for m in dims], single=len(dims) == 1 and rng.random() < 0.5)
+    elif op == "collapse":
+        d["dims"] = None if rng.random() < 0.3 else sorted(rng.sample(range(N), rng.randint(1, N)))
+    elif op == "sptenmat":
+        d["rd"], d["cd"] = ordered_partitions(rng, N)
+    elif op == "innerprod":
+        d.update(rk="dense", bd=tgen.rand_dense(rng, shape, 0.8))
+    elif op == "getitem":
+        d["key"] = rand_region(rng, shape)
+    elif op == "extract":
+        d["q"] = [[rng.randrange(x) for x in shape] for _ in range(rng.randint(1, 4))]
+    elif op == "scale":
+        m = rng.randrange(N)
+        d.update(dims=[m], fshape=[shape[m]], fdata=[rng.choice((-2, -1, 2, 3)) for _ in range(shape[m])], fkind=rng.choice(("tensor", "ndarray")))
+    elif op == "setitem":
+        d["steps"] = [{"t": "region", "key": rand_region(rng, shape), "c": rng.choice((0, 7, -4))}]
+    elif op == "ttm":
+        m = rng.randrange(N)
+        d.update(dims=[m], mats=[rand_mat(rng, rng.choice((1, 2, 3)), shape[m])], tr=False, single=True, spm=rng.random() < 0.4)
+    elif op == "contract":
+        d["i1"], d["i2"] = rng.choice([(i, j) for i in range(N) for j in range(N) if i != j and shape[i] == shape[j]])
+    return d
+
+
+def mark(c, rng=None, cap=8):
+    """cases whose interest does not lie in several stored orders (histories, generators) count as non-trivial; every step of a
+    history is evaluated per stored order, so at most `cap` orders besides the identity are kept (all 3! for <= 3 nonzeros)"""
+    c.nontrivial = True
+    v = c.args.get("variants")
+    if rng is not None and v and len(v) > cap + 1:
+        c.args["variants"] = [v[0]] + rng.sample(v[1:], cap)
+    return c
+
+
+# ---------------------------------------------------------------------------------------------
+# sptenmat histories
+# ---------------------------------------------------------------------------------------------
+def stm_pos(shape, rd, cd, sub):
+    """(row, column) of tensor subscript `sub` in the matricization with row modes rd and column modes cd (F order)"""
+    out = []
+    for dims in (rd, cd):
+        k, mult = 0, 1
+        for m in dims:
+            k += sub[m] * mult
+            mult *= shape[m]
+        out.append(k)
+    return out
+
+
+def key_list(k, extent):
+    """resolved index list of one key component: int | list of ints | {"s": [lo, hi]}"""
+    if isinstance(k, int):
+        return [k]
+    if isinstance(k, dict):
+        lo, hi = k["s"]
+        return list(range(extent))[slice(lo, hi)]
+    return list(k)
+
+
+def step_targets(st, mshape):
+    """[(row, col), value] in pyttb's loop order: columns outer, rows inner, k counting the targets"""
+    rs, cs = key_list(st["r"], mshape[0]), key_list(st["c"], mshape[1])
+    v = st["v"]
+    out = []
+    k = 0
+    for c in cs:
+        for r in rs:
+            out.append(([r, c], v if isinstance(v, int) else v[k]))
+            k += 1
+    return out
+
+
+NZ = (7, -4, 6, -5, 2)
+
+
+def gen_stm_hist(rng, shape):
+    """a sptensor, a row/column mode split and 1..4 assignments to the sptenmat; the steps are drawn against the simulated
+    content so that every class occurs often: zero / nonzero written onto a stored / an absent position, alone and mixed in
+    one call (with and without a new entry in the same call), whole rows / columns by slice, zeroing everything one call at a time"""
+    N = len(shape)
+    a = sp_args(rng, shape)
+    rd, cd = ordered_partitions(rng, N)
+    ms = [math.prod(shape[m] for m in rd), math.prod(shape[m] for m in cd)]
+    state = {tuple(stm_pos(shape, rd, cd, s)): v for s, v in zip(a["subs"], a["vals"])}
+    cells = [(r, c) for c in range(ms[1]) for r in range(ms[0])]
+    steps = []
+
+    def apply(st):
+        steps.append(st)
+        for (r, c), v in step_targets(st, ms):
+            state[(r, c)] = v
+        for k in [k for k, v in state.items() if v == 0]:
+            del state[k]
+
+    def keyform(r, c, v):
+        f = rng.random()
+        if f < 0.5:
+            return {"r": r, "c": c, "v": v}
+        if f < 0.75:
+            return {"r": [r], "c": c, "v": [v]}
+        return {"r": r, "c": [c], "v": [v]}
+
+    if state and rng.random() < 0.15:           # zero every stored entry, one call each
+        for (r, c) in rng.sample(sorted(state), len(state))[:4]:
+            apply(keyform(r, c, 0))
+    for _ in range(rng.randint(1, 3)):
+        stored = sorted(state)
+        absent = [x for x in cells if x not in state]
+        kind = rng.choice(("zero_stored", "zero_stored", "nz_stored", "zero_absent", "nz_absent", "nonew", "nonew", "block", "block", "slice"))
+        if kind in ("zero_stored", "nz_stored") and stored:
+            r, c = rng.choice(stored)
+            apply(keyform(r, c, 0 if kind == "zero_stored" else rng.choice(NZ)))
+        elif kind in ("zero_absent", "nz_absent") and absent:
+            r, c = rng.choice(absent)
+            apply(keyform(r, c, 0 if kind == "zero_absent" else rng.choice(NZ)))
+        elif kind == "nonew" and stored:        # several stored entries of one row (or column) in one call, no new entry, >= 1 zero
+            r, c = rng.choice(stored)
+            if rng.random() < 0.5:
+                cs = [y for (x, y) in stored if x == r]
+                rng.shuffle(cs)
+                vs = [rng.choice((0, 0, rng.choice(NZ))) for _ in cs]
+                vs[rng.randrange(len(vs))] = 0
+                apply({"r": r, "c": cs, "v": vs})
+            else:
+                rs = [x for (x, y) in stored if y == c]
+                rng.shuffle(rs)
+                vs = [rng.choice((0, 0, rng.choice(NZ))) for _ in rs]
+                vs[rng.randrange(len(vs))] = 0
+                apply({"r": rs, "c": c, "v": vs})
+        elif kind == "slice":
+            sc = rng.choice((0, 0, 7))
+            if rng.random() < 0.5:
+                apply({"r": rng.randrange(ms[0]), "c": {"s": [None, None]}, "v": sc})
+            else:
+                lo = rng.randrange(ms[0])
+                apply({"r": {"s": [lo, rng.randint(lo + 1, ms[0])]}, "c": rng.randrange(ms[1]), "v": sc})
+        else:                                   # block of distinct rows x distinct columns, per-target values
+            rs = rng.sample(range(ms[0]), rng.randint(1, min(3, ms[0])))
+            cs = rng.sample(range(ms[1]), rng.randint(1, min(2, ms[1])))
+            n = len(rs) * len(cs)
+            v = rng.choice((0, 7)) if rng.random() < 0.3 else [rng.choice((0, 0, rng.choice(NZ))) for _ in range(n)]
+            apply({"r": rs if len(rs) > 1 or rng.random() < 0.5 else rs[0], "c": cs if len(cs) > 1 or rng.random() < 0.5 else cs[0], "v": v})
+    via = rng.choice(("to_sptenmat", "to_sptenmat", "ctor_nocopy", "ctor_copy")) if a["subs"] else "to_sptenmat"
+    return dict(a, rd=rd, cd=cd, steps=steps, via=via)
+
+
+# ---------------------------------------------------------------------------------------------
+# generators
+# ---------------------------------------------------------------------------------------------
+def gen_generators(rng, tier):
+    big = tier == "thorough"
+    out = []
+
+    def g(**kw):
+        out.append(dict({"shape": [], "subs": [], "vals": []}, **kw))
+    # sptendiag: element vectors with and without zeros; no shape, shorter / equal / longer requested shapes
+    for els in ([1, 2, 3], [1, 0, 3], [0, 5], [4, 0, 0, 7], [0, 0], [2], [0], [3, -1], [0, 2, 0]):
+        N = len(els)
+        shapes = [None, [N, N], [2, 6, 3], [N], [1, N + 1]]
+        for shp in shapes if big else rng.sample(shapes, 2):
+            if shp is None and N > 3:
+                continue
+            g(g="sptendiag", els=els, req=shp)
+    for _ in range(20 if big else 6):
+        N = rng.randint(1, 4)
+        els = [rng.choice((0, 0, 1, -2, 3)) for _ in range(N)]
+        g(g="sptendiag", els=els, req=[rng.randint(1, 5) for _ in range(rng.randint(1, 3))])
+    # sptenrand / from_function: subscripts drawn by numpy (seeded), values from the handle
+    for _ in range(40 if big else 12):
+        shape = tgen.rand_shape(rng, maxn=4, maxcells=60, maxdim=5)
+        n = math.prod(shape)
+        if n < 2:
+            continue
+        seed = rng.randrange(10 ** 6)
+        g(g="sptenrand", req=shape, seed=seed, nonzeros=rng.randint(0, n - 1))
+        g(g="sptenrand", req=shape, seed=seed, density=rng.choice((0.1, 0.3, 0.5, 0.9, 1.0 / n)))
+        g(g="from_function", req=shape, seed=seed, nonzeros=rng.choice((rng.randint(0, n - 1), rng.choice((0.2, 0.5, 0.99)))),
+          fn=rng.choice(("ones", "ints")))
+    # near saturation (random subscripts collide: the generators' retry / give-up paths), several seeds per shape
+    for shape in ([2, 2], [3], [2, 3], [4], [2, 2, 2], [3, 3]):
+        n = math.prod(shape)
+        for _ in range(6 if big else 3):
+            seed = rng.randrange(10 ** 6)
+            g(g="sptenrand", req=shape, seed=seed, nonzeros=n - 1)
+            g(g="sptenrand", req=shape, seed=seed, density=rng.choice((0.8, 0.9, 0.99)))
+            g(g="from_function", req=shape, seed=seed, nonzeros=rng.choice((n - 1, 0.99)), fn="ints")
+    # sptenmat constructor (aggregating copy) and from_array: (row, col) triples with repeats, cancelling repeats, explicit zeros
+    for _ in range(60 if big else 16):
+        shape = tgen.rand_shape(rng, maxn=3, maxcells=30, maxdim=4)
+        rd, cd = ordered_partitions(rng, len(shape))
+        ms = [math.prod(shape[m] for m in rd), math.prod(shape[m] for m in cd)]
+        m = rng.randint(0, 6)
+        rows = [[rng.randrange(ms[0]), rng.randrange(ms[1])] for _ in range(m)]
+        rv = [rng.choice((-2, -1, 1, 2, 0)) for _ in range(m)]
+        if m >= 2 and rng.random() < 0.5:
+            rows[1] = list(rows[0])
+            rv[1] = -rv[0] if rng.random() < 0.5 else rv[1]
+        g(g="stm_ctor", req=shape, rd=rd, cd=cd, rows=rows, rv=rv)
+        g(g="stm_from_array", req=shape, rd=rd, cd=cd, rows=rows, rv=rv, dense=rng.random() < 0.5)
+    return out
 
 
 # ---------------------------------------------------------------------------------------------
 # pyttb side
 # ---------------------------------------------------------------------------------------------
 def py_key(key):
-    return tuple(k if isinstance(k, int) else slice(k["s"][0], k["s"][1]) for k in key)
+    import numpy as np
+    return tuple(k if isinstance(k, int) else (np.array(k["l"], dtype=int) if "l" in k else slice(k["s"][0], k["s"][1])) for k in key)
+
+
+def strict_bits(np, ttb, r, o):
+    """bits of a returned sptensor / sptenmat that a list of integers cannot express (third wave, finding C06-DT1):
+    the DTYPE of the subscript array (integral values in a float64 array are not integer subscripts: full()/double() refuse
+    them), and whether the result can be used at all: full() must return.  Accepted for a result WITHOUT any stored row:
+    any dtype / shape of the (empty) subscript array — pyttb's constructors give int arrays, several operations return a
+    float `np.array([])` — provided the follow-up full() still succeeds and gives an all-zero array of the result's shape."""
+    s = np.asarray(r.subs)
+    o["subs_dtype"] = str(s.dtype)
+    o["subs_dtype_int"] = bool(np.issubdtype(s.dtype, np.integer))
+    try:
+        f = r.full()
+        d = np.asarray(f.data)
+        o["full_ok"] = bool(tuple(d.shape) == tuple(r.shape)) if isinstance(r, ttb.sptensor) else bool(d.ndim == 2)
+        if s.size == 0 and d.size and np.any(d != 0):
+            o["full_ok"] = False
+    except Exception as ex:
+        o["full_ok"] = False
+        o["full_exc"] = type(ex).__name__ + ": " + str(ex)[:80]
+    return o
+
+
+def strict_ok(o):
+    """decided on the Python side: integer dtype whenever a row is stored; full() of the result returns"""
+    if o.get("kind") not in ("sparse", "sptenmat") or "subs_dtype_int" not in o:
+        return True
+    return (len(o["subs"]) == 0 or o["subs_dtype_int"]) and o["full_ok"]
+
+
+def strict_problem(o):
+    if strict_ok(o):
+        return None
+    if len(o["subs"]) and not o["subs_dtype_int"]:
+        return f"subscript array of dtype {o['subs_dtype']} (integral values, not integer subscripts)" + (
+            f"; full() raises {o['full_exc']}" if "full_exc" in o else "")
+    return "full() of the result " + (f"raises {o['full_exc']}" if "full_exc" in o else "has the wrong shape / content")
 
 
 def obs_sparse(np, ttb, r):
@@ -278,7 +617,7 @@ def obs_sparse(np, ttb, r):
     s = np.asarray(r.subs)
     o["subs_shape"] = [int(d) for d in s.shape]
     o["subs_integral"] = bool(s.size == 0 or (np.issubdtype(s.dtype, np.integer)) or np.all(s == s.astype(int)))
-    return o
+    return strict_bits(np, ttb, r, o)
 
 
 def obs_any(np, ttb, r):
@@ -289,10 +628,11 @@ def obs_any(np, ttb, r):
     if isinstance(r, ttb.sptenmat):
         s = np.asarray(r.subs)
         rows = [] if s.size == 0 else [[int(x) for x in row] for row in s.reshape((-1, 2))]
-        return {"kind": "sptenmat", "subs": rows, "vals": [tgen.exact(x) for x in np.asarray(r.vals).ravel()],
+        return strict_bits(np, ttb, r, {
+                "kind": "sptenmat", "subs": rows, "vals": [tgen.exact(x) for x in np.asarray(r.vals).ravel()],
                 "shape": [int(d) for d in r.shape], "tshape": [int(d) for d in r.tshape], "rdims": [int(d) for d in np.asarray(r.rdims).ravel()],
                 "cdims": [int(d) for d in np.asarray(r.cdims).ravel()], "nnz": int(r.nnz),
-                "subs_integral": bool(s.size == 0 or np.issubdtype(s.dtype, np.integer) or np.all(s == s.astype(int)))}
+                "subs_integral": bool(s.size == 0 or np.issubdtype(s.dtype, np.integer) or np.all(s == s.astype(int)))})
     if isinstance(r, np.ndarray):
         return dict(tgen.obs_dense(np, r), kind="array")
     if isinstance(r, (bool, np.bool_)):
@@ -307,7 +647,36 @@ def run_ext(op, a):
     import numpy as np
     import pyttb as ttb
     try:
-        S = tgen.mk_sptensor(ttb, np, a["shape"], a["subs"], a["vals"])
+        if op == "gen":
+            return run_gen(np, ttb, a)
+        S = mk_sp_layout(ttb, np, a["shape"], a["subs"], a["vals"], a.get("layout"))
+        if op == "chain":
+            return run_chain(np, ttb, S, a)
+        return run_on(np, ttb, S, op, a)
+    except Exception as ex:
+        return {"exc": type(ex).__name__, "msg": str(ex)[:160]}
+
+
+def mk_sp_layout(ttb, np, shape, subs, vals, layout=None):
+    """the operand with its coordinate arrays in another memory layout: "F" = Fortran-ordered subscript array,
+    "view" = both arrays are strided views into larger buffers (handed over without a copy)"""
+    if layout is None:
+        return tgen.mk_sptensor(ttb, np, shape, subs, vals)
+    n, N = len(subs), len(shape)
+    s = np.array(subs, dtype=int).reshape((n, N))
+    v = np.array(vals, dtype=float).reshape((n, 1))
+    if layout == "F":
+        return ttb.sptensor(np.asfortranarray(s), v, tuple(shape), copy=False)
+    bs = np.full((2 * n + 1, 2 * N + 1), -7, dtype=int)
+    bv = np.full((2 * n + 1, 3), 99.0)
+    bs[0:2 * n:2, 0:2 * N:2] = s
+    bv[0:2 * n:2, 1:2] = v
+    return ttb.sptensor(bs[0:2 * n:2, 0:2 * N:2], bv[0:2 * n:2, 1:2], tuple(shape), copy=False)
+
+
+def run_on(np, ttb, S, op, a):
+    """one request on the pyttb sptensor S (freshly built, or the result of an earlier operation)"""
+    if True:
         with np.errstate(all="ignore"):
             if op == "innerprod":
                 if a["rk"] == "sparse":
@@ -323,6 +692,8 @@ def run_ext(op, a):
             if op == "permute":
                 return obs_any(np, ttb, S.permute(np.array(a["p"], dtype=int)))
             if op == "reshape":
+                if "old" in a:
+                    return obs_any(np, ttb, S.reshape(tuple(a["new"]), np.array(a["old"], dtype=int)))
                 return obs_any(np, ttb, S.reshape(tuple(a["new"])))
             if op == "squeeze":
                 return obs_any(np, ttb, S.squeeze())
@@ -364,9 +735,13 @@ def run_ext(op, a):
                 for st in a["steps"]:
                     if st["t"] == "region":
                         S[py_key(st["key"])] = st["c"]
+                    elif st["t"] == "region_sp":
+                        S[py_key(st["key"])] = tgen.mk_sptensor(ttb, np, st["vshape"], st["vsubs"], st["vvals"])
                     else:
                         S[np.array(st["subs"], dtype=int)] = np.array(st["c"], dtype=float).reshape((len(st["c"]), 1))
                 return obs_any(np, ttb, S)
+            if op == "stm_hist":
+                return run_stm_hist(np, ttb, S, a)
             if op == "mask":
                 W = tgen.mk_sptensor(ttb, np, a["shape"], a["bsubs"], a["bvals"])
                 ws = np.asarray(W.find()[0]).reshape((-1, len(a["shape"])))
@@ -380,8 +755,135 @@ def run_ext(op, a):
                     return obs_any(np, ttb, S[np.array(a["q"], dtype=int)])
                 return obs_any(np, ttb, S[py_key(a["key"])])
         raise ValueError(op)
+
+
+def guarded(f):
+    try:
+        return f()
     except Exception as ex:
         return {"exc": type(ex).__name__, "msg": str(ex)[:160]}
+
+
+def run_chain(np, ttb, S, a):
+    """two public operations in a row: R = first(S[, B]); then `second` on R itself and on a freshly built copy of R"""
+    f = a["first"]
+    if f in ("sub", "add", "mul", "and", "or", "xor"):
+        B = tgen.mk_sptensor(ttb, np, a["shape"], a["bsubs"], a["bvals"])
+        R = {"sub": lambda: S - B, "add": lambda: S + B, "mul": lambda: S * B, "and": lambda: S.logical_and(B),
+             "or": lambda: S.logical_or(B), "xor": lambda: S.logical_xor(B)}[f]()
+    elif f == "self_sub":
+        R = S - S
+    elif f == "times0":
+        R = S * 0
+    elif f == "neg":
+        R = -S
+    elif f == "setzero":                    # every stored entry assigned zero, one call
+        R = S.copy()
+        if a["subs"]:
+            R[np.array(a["subs"], dtype=int)] = 0
+    else:
+        raise ValueError(f)
+    if not isinstance(R, ttb.sptensor):
+        return {"kind": "other", "type": type(R).__name__}
+    o1 = obs_sparse(np, ttb, R)
+    sec, sa = a["second"]["op"], a["second"]
+    ent = sorted(zip(o1["subs"], o1["vals"]))
+    ok1 = raw_ok(o1)
+    o2 = guarded(lambda: run_on(np, ttb, R, sec, sa))
+    o3 = None
+    if ok1:
+        fresh = tgen.mk_sptensor(ttb, np, o1["shape"], [e[0] for e in ent], [e[1] for e in ent])
+        o3 = guarded(lambda: run_on(np, ttb, fresh, sec, sa))
+    return {"kind": "chain", "first": o1, "second": o2, "fresh": o3}
+
+
+def obs_stm(np, ttb, M, back=True):
+    """raw observation of a sptenmat (+ to_sptensor() of it)"""
+    o = obs_any(np, ttb, M)
+    o["subs_shape"] = [int(d) for d in np.asarray(M.subs).shape]
+    o["vals_shape"] = [int(d) for d in np.asarray(M.vals).shape]
+    if back:
+        try:
+            o["back"] = obs_any(np, ttb, M.to_sptensor())
+        except Exception as ex:
+            o["back"] = {"exc": type(ex).__name__, "msg": str(ex)[:160]}
+    return o
+
+
+def run_stm_hist(np, ttb, S, a):
+    shape, rd, cd = a["shape"], a["rd"], a["cd"]
+    rda, cda = np.array(rd, dtype=int), np.array(cd, dtype=int)
+    if a["via"] == "to_sptenmat":
+        M = S.to_sptenmat(rda, cda)
+    else:
+        rows = np.array([stm_pos(shape, rd, cd, s) for s in a["subs"]], dtype=int).reshape((len(a["subs"]), 2))
+        vals = np.array(a["vals"], dtype=float).reshape((len(a["vals"]), 1))
+        M = ttb.sptenmat(rows, vals, rda, cda, tuple(shape), copy=a["via"] == "ctor_copy")
+    obs = [obs_stm(np, ttb, M)]
+    for st in a["steps"]:
+        key = tuple(k if isinstance(k, int) else (slice(k["s"][0], k["s"][1]) if isinstance(k, dict) else np.array(k, dtype=int))
+                    for k in (st["r"], st["c"]))
+        v = st["v"]
+        M[key] = v if isinstance(v, int) else np.array(v, dtype=float).reshape((len(v), 1))
+        obs.append(obs_stm(np, ttb, M))
+    return {"kind": "stm_hist", "steps": obs}
+
+
+def run_gen(np, ttb, a):
+    g = a["g"]
+    if g == "sptendiag":
+        els = np.array(a["els"], dtype=float)
+        keep = els.copy()
+        R = ttb.sptendiag(els) if a["req"] is None else ttb.sptendiag(els, tuple(a["req"]))
+        o = obs_sparse(np, ttb, R)
+        o["input_kept"] = bool(np.array_equal(keep, els))
+        els[:] = 99.0                                  # second step: the caller re-uses its vector
+        o["after"] = obs_sparse(np, ttb, R)
+        return o
+    if g == "sptenrand":
+        np.random.seed(a["seed"])
+        if "density" in a:
+            R = ttb.sptenrand(tuple(a["req"]), density=float(a["density"]))
+        else:
+            R = ttb.sptenrand(tuple(a["req"]), nonzeros=a["nonzeros"])
+        o = obs_sparse(np, ttb, R)
+        o["unit"] = bool(all(0 < float(x) < 1 for x in np.asarray(R.vals).ravel()))
+        o["vals"] = [1 if x != 0 else 0 for x in o["vals"]]          # only the zero pattern of the random values is compared
+        return o
+    if g == "from_function":
+        np.random.seed(a["seed"])
+        cnt = [0]
+
+        def ones(shp):
+            return np.ones(shp)
+
+        def ints(shp):
+            cnt[0] += 1
+            return np.arange(1, shp[0] + 1, dtype=float).reshape(shp) * (-1) ** cnt[0]
+        return obs_sparse(np, ttb, ttb.sptensor.from_function(ones if a["fn"] == "ones" else ints, tuple(a["req"]), a["nonzeros"]))
+    rda, cda = np.array(a["rd"], dtype=int), np.array(a["cd"], dtype=int)
+    m = len(a["rows"])
+    rows = np.array(a["rows"], dtype=int).reshape((m, 2))
+    vals = np.array(a["rv"], dtype=float).reshape((m, 1))
+    if g == "stm_ctor":
+        if m == 0:
+            return obs_stm(np, ttb, ttb.sptenmat(None, None, rda, cda, tuple(a["req"])))
+        return obs_stm(np, ttb, ttb.sptenmat(rows.copy(), vals.copy(), rda, cda, tuple(a["req"])))
+    if g == "stm_from_array":
+        ms = stm_mshape(a["req"], a["rd"], a["cd"])
+        if a["dense"]:
+            A = np.zeros(tuple(ms))
+            for (r, c), v in zip(a["rows"], a["rv"]):
+                A[r, c] += v
+        else:
+            from scipy import sparse as sps
+            A = sps.coo_matrix((vals.ravel().copy(), (rows[:, 0].copy(), rows[:, 1].copy())), shape=tuple(ms))
+        return obs_stm(np, ttb, ttb.sptenmat.from_array(A, rda, cda, tuple(a["req"])))
+    raise ValueError(g)
+
+
+def stm_mshape(shape, rd, cd):
+    return [math.prod(shape[m] for m in rd), math.prod(shape[m] for m in cd)]
 
 
 # ---------------------------------------------------------------------------------------------
@@ -389,6 +891,8 @@ def run_ext(op, a):
 # ---------------------------------------------------------------------------------------------
 def raw_ok(o):
     k = o.get("kind")
+    if not strict_ok(o):
+        return False
     if k == "sparse":
         rows_ok = all(len(r) == len(o["shape"]) and all(x >= 0 for x in r) for r in o["subs"])
         return (rows_ok and o.get("subs_integral", True) and o["nnz"] == len(o["subs"]) == len(o["vals"]) and tgen.all_int(o["vals"])
@@ -402,9 +906,35 @@ def raw_ok(o):
         back = o.get("back", {})
         return (rows_ok and o["subs_integral"] and o["nnz"] == len(o["subs"]) == len(o["vals"]) and tgen.all_int(o["vals"])
                 and len(o["shape"]) == 2 and back.get("kind") == "sparse" and raw_ok(back))
+    if k == "stm_hist":
+        return all(stm_raw_ok(x) for x in o["steps"])
     if k == "assoc":
         return len(o["keys"]) == len(o["vals"]) and tgen.all_int(o["vals"]) and all(x >= 0 for r in o["keys"] for x in r)
     return False
+
+
+def stm_raw_ok(o):
+    """raw bits of one sptenmat observation: n x 2 integer subscripts, n x 1 values, nnz = n, and to_sptensor() returns"""
+    if o.get("kind") != "sptenmat" or not raw_ok(o):
+        return False
+    n = len(o["subs"])
+    if n == 0:
+        return math.prod(o["subs_shape"]) == 0 and math.prod(o["vals_shape"]) == 0
+    return o["subs_shape"] == [n, 2] and o["vals_shape"] == [n, 1]
+
+
+def diag_shape(a):
+    N = len(a["els"])
+    return [N] * N if a["req"] is None else [max(N, d) for d in a["req"]]
+
+
+def req_count(a):
+    """upper bound on the number of stored entries of sptenrand / from_function"""
+    n = math.prod(a["req"])
+    if "density" in a:
+        return int(math.floor(n * a["density"]))
+    z = a["nonzeros"]
+    return int(math.ceil(n * z)) if 0 < z < 1 else int(math.floor(z))
 
 
 # ---------------------------------------------------------------------------------------------
@@ -431,9 +961,133 @@ def gktensor(a):
     return tgen.gktensor(a["kw"], a["kf"])
 
 
+def gtargets(ts):
+    if not ts:
+        return "(@nil (list nat * Z))"
+    return "[" + "; ".join(f"({gnlist(rc)}, {gz(v)})" for rc, v in ts) + "]"
+
+
+def check_gen(a, o):
+    """generators: one run, nothing to permute"""
+    g = a["g"]
+    if g in ("stm_ctor", "stm_from_array"):
+        if not stm_raw_ok(o) or o["tshape"] != a["req"] or o["rdims"] != a["rd"] or o["cdims"] != a["cd"]:
+            return "false"
+        ms = stm_mshape(a["req"], a["rd"], a["cd"])
+        if o["shape"] != ms:
+            return "false"
+        return (f"sp_denotes {gsp_obs(o)} (full 0%Z (from_aggregator zisz (vsum 0%Z Z.add) {gnlist(ms)} {gnmat(a['rows'])} {gzlist(a['rv'])}))"
+                f" && wf_spb zisz {gsp_obs(o['back'])}"
+                f" && sp_perm_eqb (sptenmat_to_sptensor (mkSTM {gnmat(o['subs'])} {gzlist(o['vals'])} {gnlist(a['rd'])} {gnlist(a['cd'])} {gnlist(a['req'])})) {gsp_obs(o['back'])}")
+    if o.get("kind") != "sparse" or not raw_ok(o):
+        return "false"
+    if g == "sptendiag":
+        if not o["input_kept"] or not raw_ok(o["after"]):
+            return "false"
+        shp = diag_shape(a)
+        return f"sp_den_is {gnlist(shp)} (diag_den {gzlist(a['els'])}) {gsp_obs(o)} && sp_raw_eqb {gsp_obs(o)} {gsp_obs(o['after'])}"
+    if g == "sptenrand" and not o["unit"]:
+        return "false"
+    if len(o["subs"]) > req_count(a):
+        return "false"
+    return f"gen_wf_ok {gnlist(a['req'])} {gsp_obs(o)}"
+
+
+def gfun_is(rs, f, o):
+    """Gallina bool: the observation o (sptensor / tensor / ndarray / number) is the array of shape rs with entries f"""
+    k = o["kind"]
+    if k == "scalar":
+        return f"scalar_is {gqs([o])} ({f} (@nil nat))" if rs == [] else "false"
+    if k == "sparse":
+        return f"sp_den_is {gnlist(rs)} {f} {gsp_obs(o)}"
+    if k in ("dense", "array"):
+        return f"den_matches {gnlist(rs)} {f} {tgen.gdense(o['shape'], o['data'])}"
+    return "false"
+
+
+def kernel_tie(c, o):
+    """ties the C06 kernel theorems (stated over the C02 models impl_ttv_sp, impl_ttm_sp, impl_collapse_sp, impl_contract_sp,
+    impl_scale_sp, impl_mask_sp) to pyttb inside this check: the first run's raw result is what the model computes from the
+    literal operand"""
+    a = c.args
+    if c.op not in ("ttv", "ttm", "collapse", "contract", "scale", "mask", "permute", "reshape", "squeeze"):
+        return ""
+    shp = a["shape"]
+    N = len(shp)
+    A = tgen.gsparse(shp, a["subs"], a["vals"])
+    # permute / reshape / squeeze: the C07 models the theorems C06_ops_permute / _reshape / _squeeze are stated over
+    # (shape included: a result with the right entries and the wrong shape is not the model's result)
+    if c.op == "permute":
+        return (f" && match permute_sp {A} {gnlist(a['p'])} with Some R_ => sp_perm_eqb R_ {gsp_obs(o)} | None => false end"
+                if o["kind"] == "sparse" else " && false")
+    if c.op == "reshape":
+        if "old" in a:
+            return (f" && match reshape_sp {A} {gnlist(a['new'])} {gnlist(a['old'])} with Some R_ => sp_perm_eqb R_ {gsp_obs(o)} | None => false end"
+                    if o["kind"] == "sparse" else " && false")
+        return (f" && match reshape_sp_all {A} {gnlist(a['new'])} with Some R_ => sp_perm_eqb R_ {gsp_obs(o)} | None => false end"
+                if o["kind"] == "sparse" else " && false")
+    if c.op == "squeeze":
+        if o["kind"] == "sparse":
+            return f" && match squeeze_sp 0%Z {A} with SqT R_ => sp_perm_eqb R_ {gsp_obs(o)} | SqScalar _ => false end"
+        if o["kind"] == "scalar":
+            return f" && match squeeze_sp 0%Z {A} with SqT _ => false | SqScalar v_ => scalar_is {gqs([o])} v_ end"
+        return " && false"
+    Z4 = "0%Z 1%Z Z.add Z.mul"
+    if c.op == "ttv":
+        order = sorted(range(len(a["dims"])), key=lambda j: a["dims"][j])
+        sd, sv = [a["dims"][j] for j in order], [a["vecs"][j] for j in order]
+        rs = [shp[m] for m in range(N) if m not in sd]
+        return " && " + gfun_is(rs, f"(impl_ttv_sp {Z4} {A} {gnlist(sd)} [" + "; ".join(gzlist(v) for v in sv) + "])", o)
+    if c.op == "ttm":
+        if len(a["dims"]) != 1:
+            return ""
+        n, U = a["dims"][0], a["mats"][0]
+        J = len(U[0]) if a["tr"] else len(U)
+        rs = [J if m == n else d for m, d in enumerate(shp)]
+        return " && " + gfun_is(rs, f"(impl_ttm_sp 0%Z Z.add Z.mul {A} {n} {tgen.gmatrix(U)} {'true' if a['tr'] else 'false'})", o)
+    if c.op == "collapse":
+        dims = list(range(N)) if a["dims"] is None else sorted(a["dims"])
+        rs = [shp[m] for m in range(N) if m not in dims]
+        return " && " + gfun_is(rs, f"(impl_collapse_sp 0%Z Z.add {A} {gnlist(dims)})", o)
+    if c.op == "contract":
+        rs = [shp[m] for m in range(N) if m not in (a["i1"], a["i2"])]
+        return " && " + gfun_is(rs, f"(impl_contract_sp 0%Z Z.add {A} {a['i1']} {a['i2']})", o)
+    if c.op == "scale":
+        if o["kind"] != "sparse":
+            return " && false"
+        g = f"(zden {tgen.gdense(a['fshape'], a['fdata'])})"
+        return f" && sp_perm_eqb (impl_scale_sp Z.mul zisz {A} {gnlist(sorted(a['dims']))} {g}) {gsp_obs(o)}"
+    if c.op == "mask":
+        return f" && vec_eqb (impl_mask_sp 0%Z {A} {gnmat(o['keys'])}) {gzlist(o['vals'])}"
+    return ""
+
+
+def check_chain(c, runs):
+    from vcheck import Case
+    if any(r.get("kind") != "chain" for r in runs):
+        return "false"
+    firsts = [r["first"] for r in runs]
+    if not all(raw_ok(o) for o in firsts):
+        return "false"
+    seconds = [r["second"] for r in runs] + [r["fresh"] for r in runs]
+    if any(o is None for o in seconds):
+        return "false"
+    e = gsame_sparse(firsts)
+    if any("exc" in o for o in seconds):
+        # refused for the result and for its fresh copy alike: nothing returned, nothing to compare
+        return e if len({o.get("exc") for o in seconds}) == 1 else "false"
+    f0 = firsts[0]
+    fake = Case("chain2", {"shape": f0["shape"], "subs": f0["subs"], "vals": f0["vals"]})
+    return e + " && " + check_ext(fake, seconds)
+
+
 def check_ext(c, runs):
     """Gallina bool over the runs of one request (all runs returned something, no exception)"""
     a = c.args
+    if c.op == "gen":
+        return check_gen(a, runs[0])
+    if c.op == "chain":
+        return check_chain(c, runs)
     kinds = {r.get("kind") for r in runs}
     if len(kinds) != 1 or not all(raw_ok(r) for r in runs):
         return "false"
@@ -451,19 +1105,25 @@ def check_ext(c, runs):
             e += f" && scalar_is {gqs(runs[:1])} (zinner {gnlist(a['shape'])} (zden_sp {A}) {B})"
         if c.op == "norm":
             e += f" && norm_sq_is {gqs(runs[:1])} {gz(sum(v * v for v in a['vals']))}"
-        return e
+        return e + kernel_tie(c, runs[0])
     if kind == "sparse":
-        return gsame_sparse(runs)
+        return gsame_sparse(runs) + kernel_tie(c, runs[0])
     if kind in ("dense", "array"):
-        return "all_same_dense " + glist([tgen.gdense(r["shape"], r["data"]) for r in runs])
+        return "all_same_dense " + glist([tgen.gdense(r["shape"], r["data"]) for r in runs]) + kernel_tie(c, runs[0])
     if kind == "sptenmat":
         meta = {(tuple(r["shape"]), tuple(r["tshape"]), tuple(r["rdims"]), tuple(r["cdims"])) for r in runs}
         if len(meta) != 1:
             return "false"
         A = tgen.gsparse(a["shape"], a["subs"], a["vals"])
         return (gsame_sparse(runs) + " && " + gsame_sparse([r["back"] for r in runs]) + f" && sp_perm_eqb {A} {gsp_obs(runs[0]['back'])}")
+    if kind == "stm_hist":
+        A = tgen.gsparse(a["shape"], a["subs"], a["vals"])
+        ms = stm_mshape(a["shape"], a["rd"], a["cd"])
+        steps = glist([gtargets(step_targets(st, ms)) for st in a["steps"]])
+        return " && ".join(f"stm_hist_ok {A} {gnlist(a['rd'])} {gnlist(a['cd'])} {steps} " +
+                           glist([f"({gsp_obs(x)}, {gsp_obs(x['back'])})" for x in r["steps"]]) for r in runs)
     if kind == "assoc":
-        return "all_same_assoc " + glist(["(combine " + gnmat(r["keys"]) + " " + gzlist(r["vals"]) + ")" for r in runs])
+        return "all_same_assoc " + glist(["(combine " + gnmat(r["keys"]) + " " + gzlist(r["vals"]) + ")" for r in runs]) + kernel_tie(c, runs[0])
     return "false"
 
 
@@ -497,6 +1157,8 @@ def brute_innerprod(a):
 def sp_problems(o, shape):
     """the well-formedness clauses on a raw coordinate observation (sptensor, or sptenmat read as a 2-way coordinate list)"""
     subs, vals = o["subs"], o["vals"]
+    if strict_problem(o):
+        return strict_problem(o)
     if len(subs) != len(vals):
         return f"{len(subs)} subscript rows but {len(vals)} values"
     if o["nnz"] != len(subs):
@@ -531,8 +1193,217 @@ def canon_ext(r):
     return (k, str(r))
 
 
+def dict_of(o):
+    return {tuple(s): v for s, v in zip(o["subs"], o["vals"])}
+
+
+def oracle_stm_obs(o, ms, want, where):
+    """one sptenmat observation against the matrix `want` ({(r, c): nonzero value}) it has to denote"""
+    if o.get("kind") != "sptenmat":
+        return where + f"result of kind {o.get('kind')}"
+    p = sp_problems(o, ms)
+    if p:
+        return where + "ill-formed sptenmat: " + p
+    if not stm_raw_ok(o):
+        return where + f"ill-shaped sptenmat arrays: subs {o.get('subs_shape')} vals {o.get('vals_shape')} for {len(o['subs'])} entries"
+    if dict_of(o) != want:
+        return where + f"sptenmat stores {dict_of(o)} but the assigned matrix has the nonzeros {want}"
+    b = o["back"]
+    if "exc" in b:
+        return where + f"to_sptensor raises {b['exc']}"
+    if b.get("kind") != "sparse":
+        return where + f"to_sptensor returns {b.get('kind')}"
+    p = sp_problems(b, o["tshape"])
+    if p:
+        return where + "ill-formed to_sptensor() result: " + p
+    got = {tuple(stm_pos(o["tshape"], o["rdims"], o["cdims"], s)): v for s, v in zip(b["subs"], b["vals"])}
+    if got != want or list(b["shape"]) != list(o["tshape"]):
+        return where + f"to_sptensor() does not denote the same array: {b}"
+    return None
+
+
+def aggregate(rows, vals):
+    out = {}
+    for r, v in zip(rows, vals):
+        out[tuple(r)] = out.get(tuple(r), 0) + v
+    return {k: v for k, v in out.items() if v != 0}
+
+
+def oracle_gen(a, o):
+    g = a["g"]
+    if "exc" in o:
+        return f"{g} raises {o['exc']}: {o.get('msg')}"
+    if g in ("stm_ctor", "stm_from_array"):
+        ms = stm_mshape(a["req"], a["rd"], a["cd"])
+        if o.get("kind") == "sptenmat" and (o["tshape"] != a["req"] or o["rdims"] != a["rd"] or o["cdims"] != a["cd"] or o["shape"] != ms):
+            return f"{g}: wrong tshape / rdims / cdims / shape: {o}"
+        return oracle_stm_obs(o, ms, aggregate(a["rows"], a["rv"]), g + ": ")
+    if o.get("kind") != "sparse":
+        return f"{g} returns {o.get('kind')}"
+    shp = diag_shape(a) if g == "sptendiag" else a["req"]
+    if list(o["shape"]) != list(shp):
+        return f"{g}: shape {o['shape']}, expected {shp}"
+    p = sp_problems(o, shp)
+    if p:
+        return f"{g}: ill-formed sparse result: {p}"
+    if g == "sptendiag":
+        want = {tuple([k] * len(shp)): v for k, v in enumerate(a["els"]) if v != 0}
+        if dict_of(o) != want:
+            return f"sptendiag stores {dict_of(o)}, expected {want}"
+        if not o["input_kept"]:
+            return "sptendiag changed the caller's vector"
+        if (o["after"]["subs"], o["after"]["vals"]) != (o["subs"], o["vals"]):
+            return f"sptendiag result changes when the caller re-uses its vector: {o['after']['vals']}"
+    else:
+        if len(o["subs"]) > req_count(a):
+            return f"{g}: {len(o['subs'])} entries stored, at most {req_count(a)} requested"
+        if g == "sptenrand" and not o["unit"]:
+            return "sptenrand: value outside (0, 1)"
+    return None
+
+
+def brute_expected(op, a):
+    """(shape, {subscript: nonzero value}) of the result by its definition, plain Python loops over all subscripts; None = not covered"""
+    shp = a["shape"]
+    N = len(shp)
+    A = {tuple(s): v for s, v in zip(a["subs"], a["vals"])}
+    cells = [tuple(x) for x in tgen.all_subs(shp)]
+
+    def build(rs, f):
+        out = {}
+        for i in [tuple(x) for x in tgen.all_subs(rs)] if rs else [()]:
+            v = f(i)
+            if v != 0:
+                out[i] = v
+        return list(rs), out
+    if op == "ttv":
+        dims, vecs = a["dims"], a["vecs"]
+        rest = [m for m in range(N) if m not in dims]
+
+        def f(i):
+            t = 0
+            for j in cells:
+                if all(j[m] == i[k] for k, m in enumerate(rest)):
+                    p = A.get(j, 0)
+                    for d, v in zip(dims, vecs):
+                        p *= v[j[d]]
+                    t += p
+            return t
+        return build([shp[m] for m in rest], f)
+    if op == "ttm" and len(a["dims"]) == 1:
+        n, U, tr = a["dims"][0], a["mats"][0], a["tr"]
+        J = len(U[0]) if tr else len(U)
+        rs = [J if m == n else d for m, d in enumerate(shp)]
+        return build(rs, lambda i: sum((U[k][i[n]] if tr else U[i[n]][k]) * A.get(i[:n] + (k,) + i[n + 1:], 0) for k in range(shp[n])))
+    if op in ("collapse", "contract"):
+        dims = (list(range(N)) if a["dims"] is None else a["dims"]) if op == "collapse" else [a["i1"], a["i2"]]
+        rest = [m for m in range(N) if m not in dims]
+        return build([shp[m] for m in rest], lambda i: sum(
+            v for j, v in A.items() if all(j[m] == i[k] for k, m in enumerate(rest)) and (op == "collapse" or j[a["i1"]] == j[a["i2"]])))
+    if op == "scale":
+        F = dict(zip(map(tuple, tgen.all_subs(a["fshape"])), a["fdata"]))
+        sd = sorted(a["dims"])
+        return build(shp, lambda i: A.get(i, 0) * F[tuple(i[m] for m in sd)])
+    if op == "permute":
+        p = a["p"]
+        return [shp[m] for m in p], {tuple(j[m] for m in p): v for j, v in A.items()}
+
+    def lin(sub, dims_shape):
+        k, mult = 0, 1
+        for x, d in zip(sub, dims_shape):
+            k += x * mult
+            mult *= d
+        return k
+
+    def unlin(k, dims_shape):
+        out = []
+        for d in dims_shape:
+            out.append(k % d)
+            k //= d
+        return tuple(out)
+    if op == "reshape":
+        old = a.get("old", list(range(N)))
+        keep = [m for m in range(N) if m not in old]
+        return ([shp[m] for m in keep] + list(a["new"]),
+                {tuple(j[m] for m in keep) + unlin(lin([j[m] for m in old], [shp[m] for m in old]), a["new"]): v for j, v in A.items()})
+    if op == "squeeze":
+        keep = [m for m in range(N) if shp[m] != 1]
+        return [shp[m] for m in keep], {tuple(j[m] for m in keep): v for j, v in A.items()}
+    return None
+
+
+def brute_problem(op, a, o):
+    e = brute_expected(op, a)
+    if e is None:
+        return None
+    rs, want = e
+    k = o.get("kind")
+    if k == "scalar":
+        got = {(): Fraction(o["v"])} if Fraction(o["v"]) != 0 else {}
+        if rs != [] or got != {x: Fraction(v) for x, v in want.items()}:
+            return f"{op} returns the number {o['v']}, the definition gives shape {rs} entries {want}"
+        return None
+    if k == "sparse":
+        got = {tuple(x): v for x, v in zip(o["subs"], o["vals"])}
+    elif k in ("dense", "array"):
+        got = {tuple(x): v for x, v in zip(tgen.all_subs(o["shape"]), o["data"]) if v != 0}
+    else:
+        return None
+    if list(o["shape"]) != list(rs) or got != want:
+        return f"{op} returns shape {o['shape']} with nonzeros {got}; by the definition (sum over all subscripts) it is shape {rs} with nonzeros {want}"
+    return None
+
+
 def oracle_ext(c, runs, variants):
     a = c.args
+    if c.op == "gen":
+        return oracle_gen(a, runs[0])
+    if c.op == "chain":
+        for r, (pa, pb) in zip(runs, variants):
+            if r.get("kind") != "chain":
+                return f"stored order {pa}/{pb}: {a['first']} returns {r}"
+            p = sp_problems(r["first"], r["first"]["shape"])
+            if p:
+                return f"stored order {pa}/{pb}: ill-formed result of {a['first']}: {p}"
+        c0 = canon_ext(runs[0]["first"])
+        for r, (pa, pb) in zip(runs[1:], variants[1:]):
+            if canon_ext(r["first"]) != c0:
+                return f"stored order {pa}/{pb}: {a['first']} gives a different result: {r['first']} vs {runs[0]['first']}"
+        seconds = [(r["second"], f"stored order {pa}/{pb}, {a['second']['op']} on the result of {a['first']}") for r, (pa, pb) in zip(runs, variants)]
+        seconds += [(r["fresh"], f"stored order {pa}/{pb}, {a['second']['op']} on a fresh copy of the result") for r, (pa, pb) in zip(runs, variants)]
+        if any(o is None for o, _ in seconds):
+            return "no second observation"
+        excs = {o.get("exc") for o, _ in seconds}
+        if len(excs) > 1:
+            return f"{a['second']['op']} after {a['first']}: raises for some of result / fresh copy / stored orders only: {[(w, o.get('exc'), o.get('msg')) for o, w in seconds if 'exc' in o][:2]}"
+        if excs != {None}:
+            return None
+        for o, w in seconds:
+            k = o.get("kind")
+            if k in ("sparse", "sptenmat"):
+                p = sp_problems(o, o["shape"])
+                if p:
+                    return w + ": ill-formed result: " + p
+        s0 = canon_ext(seconds[-len(runs)][0])          # the fresh copy under the identity order is the reference
+        for o, w in seconds:
+            if canon_ext(o) != s0:
+                return w + f": {o} differs from the same request on a fresh copy: {seconds[-len(runs)][0]}"
+        return None
+    if c.op == "stm_hist":
+        ms = stm_mshape(a["shape"], a["rd"], a["cd"])
+        for r, (pa, pb) in zip(runs, variants):
+            want = {tuple(stm_pos(a["shape"], a["rd"], a["cd"], s)): v for s, v in zip(a["subs"], a["vals"])}
+            if r.get("kind") != "stm_hist" or len(r["steps"]) != len(a["steps"]) + 1:
+                return f"stored order {pa}: {r}"
+            for k, o in enumerate(r["steps"]):
+                if k > 0:
+                    for (rr, cc), v in step_targets(a["steps"][k - 1], ms):
+                        want[(rr, cc)] = v
+                    want = {x: v for x, v in want.items() if v != 0}
+                p = oracle_stm_obs(o, ms, want, f"stored order {pa} ({a['via']}), after step {k} {a['steps'][k - 1] if k else '(initial)'}: ")
+                if p:
+                    return p
+        return None
     for r, (pa, pb) in zip(runs, variants):
         k = r.get("kind")
         where = f"stored order {pa}/{pb}: "
@@ -563,6 +1434,14 @@ def oracle_ext(c, runs, variants):
         if canon_ext(r) != c0:
             return f"stored order {pa}/{pb} of the same operands gives a different result: {r} vs {runs[0]}"
     r0 = runs[0]
+    if c.op in ("ttv", "ttm", "collapse", "contract", "scale", "permute", "reshape", "squeeze"):
+        p = brute_problem(c.op, a, r0)
+        if p:
+            return p
+    if c.op == "mask" and r0.get("kind") == "assoc":
+        A = {tuple(s): v for s, v in zip(a["subs"], a["vals"])}
+        if [A.get(tuple(k), 0) for k in r0["keys"]] != list(r0["vals"]):
+            return f"mask returns {r0['vals']} at the mask's nonzeros {r0['keys']}; the tensor holds {[A.get(tuple(k), 0) for k in r0['keys']]} there"
     if c.op == "innerprod":
         want = brute_innerprod(a)
         if r0["kind"] != "scalar" or Fraction(r0["v"]) != want:
